@@ -4,6 +4,8 @@
 #![allow(dead_code)]
 pub mod engines;
 pub mod gen;
+#[cfg(feature = "hooks")]
+pub mod hooktab;
 pub mod lexicon;
 pub mod likely;
 pub mod model;
